@@ -11,6 +11,9 @@ from ..gfi.common import run_for
 def run(chk, prog):
     n, obs = run_for(chk, prog, "C03", ALL)
     chk.floor("obligations tagged C03", n, 50)
+    # "any program" includes partially applied closures: the generate path of GenerativeFunctionClosure (stored + given arguments, kwargs) - shared with C32
+    from ._share import take
+    take(chk, prog, "C32", lambda o: ".generate" in o["instance"] or ".importance" in o["instance"], "closure obligations on the generate path (from C32)", 2)
     chk.explanation = "structural-induction obligations for C03: importance weights (WEIGHT-GEN per constructor; base table none/mask/value; IDX-ALIGN, ADDR-ALIGN); each inner GFI call is an opaque atom (induction hypothesis), the derived provenance terms / linear forms are compared with the oracle table"
     for o in [o for o in obs.items if "C03" in o["props"]][:6]:
         chk.sample({"rule": o["rule"], "instance": o["instance"], "derived": o["derived"][:200], "expected": o["expected"][:160]})
